@@ -15,7 +15,7 @@ RULE = (
     "carry (999.995), +-0.0 and values that round to zero; formats through set_cell_formatting: number/percentage (places "
     "0..10 or automatic, separator, 4 negative styles), currency (every code in the library's table, accounting on/off), "
     "scientific (places 0..10), base (2..36, places 0..8, minus sign / two's complement for 2, 8, 16), fraction (9 accuracies), "
-    "rating (0..5). 150..400 (value, format) cells per document; formatted_value is read on the open document and after save+"
+    "rating (0..5, whole and fractional). One cell in six is first given another generated format, then the one under test (the last format decides). 150..400 (value, format) cells per document; formatted_value is read on the open document and after save+"
     "reopen (both must agree). Oracle (vf/numfmt.py): decoration stripped by notation, the text read as an exact Fraction P, "
     "|P - V| <= 1/2 unit of the last displayed place with V the exact 15-digit decimal of the value (either tie rule accepted); "
     "decimals shown == places asked; separators iff asked and only between 3-digit groups; exactly one negative marker of the "
@@ -122,8 +122,10 @@ def check_document(ctx, case):
             t = doc.sheets[0].tables[0]
             with warnings.catch_warnings():
                 warnings.simplefilter("ignore")
-                for i, (vj, kind, kw) in enumerate(cells):
+                for i, (vj, kind, kw, *prior) in enumerate(cells):
                     t.write(i, 0, gens.from_json(vj))
+                    for k0, kw0 in prior:  # formats applied earlier to the same cell: the last one decides
+                        t.set_cell_formatting(i, 0, k0, **_fmt_kwargs(k0, kw0))
                     t.set_cell_formatting(i, 0, kind, **_fmt_kwargs(kind, kw))
             return doc
 
@@ -132,10 +134,12 @@ def check_document(ctx, case):
             return
         t = doc.sheets[0].tables[0]
         texts = []
-        for i, (vj, kind, kw) in enumerate(cells):
+        for i, (vj, kind, kw, *prior) in enumerate(cells):
             v = gens.from_json(vj)
             sub = {"lane": "cells", "cells": [cells[i]]}
             ctx.ev()
+            if prior:
+                ctx.count("reformatted_cells")
             text = ctx.guard(("C13", "formatted_value_raised", kind), sub, lambda: t.cell(i, 0).formatted_value)
             texts.append(text)
             if text is None:
@@ -143,7 +147,8 @@ def check_document(ctx, case):
             try:
                 numfmt.check(kind, kw, v, text)
             except numfmt.Bad as b:
-                ctx.fail(("C13", kind, b.kind), sub, f"{kind} {kw} value {v!r}: {b}")
+                ctx.fail(("C13", kind, b.kind) + (("after_" + prior[-1][0],) if prior else ()), sub,
+                         f"{kind} {kw} value {v!r}" + (f" (cell formatted as {prior[-1][0]} before)" if prior else "") + f": {b}")
             if nontrivial(v, kind, kw):
                 ctx.nt((repr(v), kind, sorted(kw.items())))
             ctx.count("kind_" + kind)
@@ -158,7 +163,7 @@ def check_document(ctx, case):
         if d2 is None:
             return
         t2 = d2.sheets[0].tables[0]
-        for i, (vj, kind, kw) in enumerate(cells):
+        for i, (vj, kind, kw, *prior) in enumerate(cells):
             if texts[i] is None:
                 continue
             ctx.ev()
@@ -181,7 +186,10 @@ def cell_lists(draw, codes, nmin, nmax):
     for _ in range(n):
         kind, kw = draw(formats(codes))
         v = draw(values(kind, kw))
-        out.append([gens.to_json(v), kind, kw])
+        cell = [gens.to_json(v), kind, kw]
+        if draw(st.integers(0, 5)) == 0:
+            cell.append(list(draw(formats(codes))))
+        out.append(cell)
     return out
 
 
@@ -223,7 +231,7 @@ def run_task(ctx, lane, **kw):
         for i in range(0, len(cells), 400):
             check_document(ctx, {"lane": "cells", "cells": cells[i:i + 400]})
     elif lane == "ratings":
-        check_document(ctx, {"lane": "cells", "cells": [[gens.to_json(v), "rating", {}] for v in range(0, 6)]})
+        check_document(ctx, {"lane": "cells", "cells": [[gens.to_json(v), "rating", {}] for v in [0, 1, 2, 3, 4, 5, 0.4, 0.6, 1.2, 2.9, 3.5, 4.49, 4.999, 2.5]]})
     else:
         raise ValueError(lane)
 
